@@ -1,5 +1,5 @@
 // govc:pkg .
-// govc:bound 160 (thorough: 800) random arithmetic expressions of depth <= 3 over columns and literals (parenthesised exactly where precedence requires), each as a SELECT item (EmitSync) and inside a WHERE comparison, over 8 rows whose columns a,b,c are int or float64 (no NULL, no zero divisor)
+// govc:bound 160 (thorough: 800) random arithmetic expressions of depth <= 3 over columns and literals (parenthesised exactly where precedence requires), each as a SELECT item (EmitSync) and inside a WHERE comparison, over 8 rows whose columns a,b,c are int or float64 (no NULL, no zero divisor); plus 120 (thorough: 600) expressions evaluated on rows in which one mentioned column is explicit nil or absent (result must be NULL)
 // Bounded stand-in (NOT a proof) for what the kernels under contract do not reach: the choice between the internal
 // evaluators and expr-lang. On NULL-free rows every path must give the value of ordinary arithmetic with SQL
 // precedence; in WHERE the row is kept iff the comparison is true.
@@ -207,4 +207,77 @@ func govcExprNum(v any) (float64, bool) {
 		return x, true
 	}
 	return 0, false
+}
+
+// NULL propagation: every arithmetic operator is strict, so an expression mentioning a column that is NULL (explicit nil) or
+// absent in the row evaluates to NULL, whichever evaluator or fast path handles the item; on the complete row of the same
+// shape it evaluates to the ordinary value (so the expression itself is known to be supported).
+func TestGovcBounded_expression_null_operands(t *testing.T) {
+	rng := rand.New(rand.NewSource(31))
+	nexpr := 120
+	if os.Getenv("GOVC_BOUND") == "thorough" {
+		nexpr = 600
+	}
+	full := map[string]any{"a": 6, "b": 2.5, "c": 4}
+	cases, fails := 0, 0
+	seen := map[string]bool{}
+	for len(seen) < nexpr {
+		e := govcGenExpr(rng, 2+rng.Intn(2))
+		if seen[e.sql] || !strings.ContainsAny(e.sql, "abc") || topOp(e.sql) == "" {
+			continue
+		}
+		fv := e.val(map[string]float64{"a": 6, "b": 2.5, "c": 4})
+		if !govcFinite(fv) {
+			continue
+		}
+		seen[e.sql] = true
+		cases++
+		s := New()
+		if err := s.Execute("SELECT " + e.sql + " AS f FROM stream"); err != nil {
+			fails++
+			fmt.Printf("GOVC-BOUNDED-FAIL expression_null_operands expr=`%s`: execute: %v\n", e.sql, err)
+			s.Stop()
+			continue
+		}
+		detail := ""
+		for _, col := range []string{"a", "b", "c"} {
+			if !strings.Contains(e.sql, col) {
+				continue
+			}
+			for _, mode := range []string{"nil", "absent"} {
+				row := map[string]any{}
+				for k, v := range full {
+					row[k] = v
+				}
+				if mode == "nil" {
+					row[col] = nil
+				} else {
+					delete(row, col)
+				}
+				res, err := s.EmitSync(row)
+				if err != nil {
+					detail = fmt.Sprintf("column %s %s: EmitSync error %v", col, mode, err)
+				} else if res == nil {
+					detail = fmt.Sprintf("column %s %s: no result row", col, mode)
+				} else if v, ok := res["f"]; ok && v != nil {
+					detail = fmt.Sprintf("column %s %s: f = %v (%T), want NULL", col, mode, v, v)
+				}
+				if detail != "" {
+					break
+				}
+			}
+			if detail != "" {
+				break
+			}
+		}
+		s.Stop()
+		if detail != "" {
+			fails++
+			fmt.Printf("GOVC-BOUNDED-FAIL expression_null_operands expr=`%s`: %s\n", e.sql, detail)
+		}
+	}
+	fmt.Printf("GOVC-BOUNDED-DONE expression_null_operands cases=%d failures=%d\n", cases, fails)
+	if fails > 0 {
+		t.Fail()
+	}
 }
